@@ -45,7 +45,7 @@ def post(chk, pairs, stats):
         return
     allin = [l.split(" => ")[0] for l, _ in pairs]
     # first cases (corpus + generated X lines) and a slice of the P lines (PBF scanner goroutines, Geom, CountTags)
-    lines = allin[:200] + [l for l in allin if l.startswith("p ")][:60]
+    lines = allin[:160] + [l for l in allin if l.startswith("p ")][:50]
     try:
         r = subprocess.run([out, "impl"], input="\n".join(lines) + "\n", env=dict(env, GORACE="halt_on_error=0"),
                            stdout=subprocess.PIPE, stderr=subprocess.PIPE, text=True, timeout=900)
@@ -116,6 +116,8 @@ CFG = {
             "document's objects (reference lists: Spec), (*Data).Geom items (roots = stored objects that are not registered dependencies; nodes and ways exactly, "
             "relations by kind; degenerate-ring panic modelled), (*Data).CountTags and CountTags(ctx, pbf) tables in their sorted order (empty-way panic modelled); "
             "every steered run of every X line additionally carries a digest of stored objects + Geom + CountTags that must equal the sequential run's. "
+            "plus T lines: XML / PBF input cut inside the header, at or inside a block (object line), between a BlobHeader and its Blob: Spec = an error OR exactly "
+            "the closure of the objects completely before the cut; model = closure of the prefix for a PBF cut at a block boundary, scanner error otherwise. "
             "distinct = distinct input line; non-trivial = verdict class not '*-skipped'",
     "timeout": {"quick": 900, "thorough": 3000},
 }
